@@ -210,12 +210,19 @@ func c03CheckOpen(d *db.DB, cfg string, f *c03MapFile, resolver, ecsBind map[str
 					return fmt.Sprintf("%s: ResolverLocation(%s, %s) matched length %d, longest match %s has %d", cfg, name, ipText, loc.Mask, want.Text(), want.Len)
 				}
 			}
-			// ECS path
+			// ECS path (IPv4 clients alternately as family 1 and as family 2 with the IPv4-mapped address)
 			e := &dns.EDNS0_SUBNET{Code: dns.EDNS0SUBNET}
-			if v4 {
+			mappedFam2 := v4 && (int(p.IP[15])+p.Plen)%3 == 0
+			if v4 && !mappedFam2 {
 				e.Family, e.SourceNetmask, e.Address = 1, uint8(p.Plen-96), net.IP(p.IP[12:]).To4()
 			} else {
 				e.Family, e.SourceNetmask, e.Address = 2, uint8(p.Plen), net.IP(append([]byte{}, p.IP[:]...))
+			}
+			if mappedFam2 {
+				v4 = false // scope and defaults are expressed in the option's family
+				if r != nil {
+					r.Count("b_ecs_family2_mapped_lookups", 1)
+				}
 			}
 			loc, err := c03Safe(func() (*db.Location, error) { return rd.EcsLocation(q, e) })
 			if r != nil {
